@@ -22,6 +22,7 @@ sync()
 env = dict(os.environ, VERIF_ROOT=f"{scratch}/root", CARGO_NET_OFFLINE="true")
 for a in args:
     diff, ids = a.split(':')
+    diff = os.path.abspath(diff)
     name = os.path.basename(diff)
     r = sh(f"cd {scratch}/repo && patch -p1 --no-backup-if-mismatch < {diff}")
     if r.returncode != 0:
@@ -38,4 +39,8 @@ for a in args:
             nv = r.stdout.count('VIOLATION')
             first = next((l for l in r.stderr.splitlines() if l.startswith('violated:')), '')[:200]
             print(f"{name:34s} {id} rc={r.returncode} viol={nv} {time.time()-t0:.0f}s {first}", flush=True)
+            if os.environ.get('MUTRUN_JSON'):
+                import json
+                with open(os.environ['MUTRUN_JSON'], 'a') as jf:
+                    jf.write(json.dumps({"mutant": name, "check": id, "rc": r.returncode, "violations": nv, "seconds": round(time.time()-t0), "first": first}) + "\n")
     sh(f"cd {scratch}/repo && patch -R -p1 --no-backup-if-mismatch < {diff}")
